@@ -108,13 +108,45 @@ def run(ctx):
             continue
         reqs.append(W.model_request({"db": db}, roots, "getnext", fuel=len(db) + 8))
         impls.append((case, walk, nb > 0 or len(db) > 0))
+    # volatile agents: every object is a counter evaluated once per binding, so two columns of one
+    # response that name the same instance (an empty subtree in front of another root) carry different
+    # values; GETNEXT and bulk walks; compared with the model and judged by the oracle on OIDs only
+    vol = []
+    for i in range(ctx.budget(60, 1200)):
+        db, roots = W.random_case(ctx.rng, max_inst=30, max_roots=4)
+        if i % 3 == 0 and db:
+            # an empty subtree right in front of a populated one
+            first = tuple(db[0][0])
+            roots = [r for r in roots if tuple(r) != first[:-1]] + [list(first[:-1])]
+            lower = list(first[:-2]) + [first[-2] - 1] if len(first) > 2 and first[-2] > 0 else None
+            if lower and not any(tuple(o)[: len(lower)] == tuple(lower) for o, _ in db):
+                roots.append(lower)
+            roots = [list(r) for r in dict.fromkeys(map(tuple, roots))]
+            if not W.disjoint(roots):
+                continue
+        kind, size = ("getnext", 1) if i % 2 == 0 else ("bulk", ctx.rng.choice([1, 2, 3, 10]))
+        walk, _ = W.impl_walk({"db": db, "volatile": True}, roots, kind, size=size, budget=len(db) * 2 + 8)
+        res.count(f"volatile:{kind}")
+        bad = W.oracle_exact(db, roots, walk, values=False)
+        case = {"db": db, "roots": roots, "kind": kind, "size": size, "volatile": True}
+        if bad:
+            res.violate("e2e-volatile", case, "exactly the instances strictly below the roots", W.strip_values(walk), bad,
+                        {"kind": "walk-volatile", "outcome": walk["outcome"]})
+        reqs.append(W.model_request({"db": db}, roots, kind, size=size, fuel=len(db) * 2 + 8))
+        impls.append((case, walk, True))
     if ctx.driver_ok:
         answers = run_driver(reqs)
         for (case, walk, nontrivial), ans in zip(impls, answers):
-            res.case("e2e-walk", case, nontrivial)
+            suite = "e2e-volatile" if case.get("volatile") else "e2e-walk"
+            res.case(suite, case, nontrivial)
             model = W.canon_model_walk(ans)
-            if model != W.canon_impl_walk(walk):
-                res.disagree("e2e-walk", case, walk, model)
+            if case.get("volatile"):
+                if "events" in model and W.strip_values(model) != W.strip_values(W.canon_impl_walk(walk)):
+                    res.disagree(suite, case, W.strip_values(walk), W.strip_values(model))
+                elif "events" not in model:
+                    res.disagree(suite, case, W.strip_values(walk), model)
+            elif model != W.canon_impl_walk(walk):
+                res.disagree(suite, case, walk, model)
     else:
         for case, _walk, nontrivial in impls:
             res.case("e2e-walk", case, nontrivial)
@@ -139,6 +171,13 @@ def search(ctx, res):
 def replay(ctx, payload):
     case = payload["case"]
     roots = case.get("permuted", case["roots"])
+    if case.get("volatile"):
+        walk, _ = W.impl_walk({"db": case["db"], "volatile": True}, roots, case["kind"], size=case["size"], budget=len(case["db"]) * 2 + 8)
+        bad = W.oracle_exact(case["db"], roots, walk, values=False)
+        print("roots", roots, "kind", case["kind"], "size", case["size"], "(volatile agent)")
+        print("trace", W.strip_values(walk))
+        print("oracle:", bad or "ok")
+        return 1 if bad else 0
     if "large" in case:
         case["db"] = W.large_case(*case["large"])[0]
     spec = {"db": case["db"]}
